@@ -129,4 +129,16 @@ CHECKS = {
         note='Where a consistent state exists for a cyclic network either outcome is accepted. The actual number of '
              'evaluations of the bounded DAGs reaches at most ~2 x #blocks in the generated cases, so a limit only '
              'slightly below the documented one would not be noticed.'),
+    'C14': dict(
+        level='exploration', design_ref='DESIGN.md 4/C14',
+        technique=PBT + '; lifecycle walk (7 phases x generated data shapes x termination kinds) with a delivery predicate and a data/return-value model; destination event() spied by instance-level instrumentation',
+        text='One scenario per case walks through not started (optionally finalized), task created, initialising (async '
+             'init in progress), running, aborting, cleaning up (async stop in progress) and finished; in every phase an '
+             'ExtEvent with generated value/source/extra items is sent to a recorder, Input, Counter or FSM (by name or '
+             'object). Delivered iff the simulation task has started and no error/stop is recorded; then the destination '
+             'must receive exactly the sent items with value inserted and the source prefixed with _ext_ exactly when '
+             'missing, and send() returns the handler result; otherwise EdzedInvalidState and no delivery; non-string '
+             'source -> TypeError. User block names starting with an underscore must be refused; internal events carry '
+             'the sender name.',
+        note='Termination by shutdown(), abort(), failing handler, and the abort/shutdown control events.'),
 }
